@@ -379,3 +379,64 @@ def c16_select_orders_unsorted_queue(ctx, v):
                 unsorted_seen = 1 if r == z3.sat else 0
         v.covers_total += 1
         v.covers_sat += 1 if (seen and unsorted_seen) else 0
+
+
+def c16_remove_entry_every_peer(ctx, v):
+    """BlockchainSyncState::remove_entry(hash) — called when a block arrived by another route or
+    is already held — with TWO peers whose queues both hold an entry for that hash (any status)
+    next to another entry: when the per-peer pass is done (explored up to the final clean-up of
+    empty queues) NO queue holds an entry for that hash any more — otherwise the entry left
+    behind stays in flight for ever (its peer is never asked again) or the block is requested
+    again — and every other entry is still there with its status."""
+    from .models import value_eq
+    body = ctx.body(r"blockchain_sync_state::<impl at [^>]*>::remove_entry$")
+    ex = ctx.executor(loop_bound=6, inline="auto", max_paths=4000, no_inline=[r"to_hex", r"fmt"])
+    ex.pure = [r".*"]
+    ex.stop_calls = [r"(?:AHashMap|HashMap)::<u64, .*>::retain::"]
+    h = ex.fresh_value("[u8; 32]", "removed.hash")
+    peers, queues, others = [], [], []
+    for p in range(2):
+        e_h = ctx.mk_struct(ex, "BlockData", "p%d.hit" % p, block_hash=ex.copy_value(h), block_id=ex.fresh_value("u64", "p%d.hit.id" % p), status=ex.fresh_value("BlockStatus", "p%d.hit.status" % p),
+                            retry_count=ex.fresh_value("u32", "p%d.hit.retry" % p))
+        oh = ex.fresh_value("[u8; 32]", "p%d.other.hash" % p)
+        ost = ex.fresh_value("BlockStatus", "p%d.other.status" % p)
+        e_o = ctx.mk_struct(ex, "BlockData", "p%d.other" % p, block_hash=oh, block_id=ex.fresh_value("u64", "p%d.other.id" % p), status=ost, retry_count=ex.fresh_value("u32", "p%d.other.retry" % p))
+        queues.append(S.Seq([e_o, e_h] if p else [e_h, e_o], "BlockData"))
+        peers.append(ex.fresh_value("u64", "peer%d" % p))
+        others.append(oh)
+    btf = S.MapV("blocks_to_fetch", [[z3.BoolVal(True), peers[p], queues[p]] for p in range(2)])
+    state = ctx.mk_struct(ex, "BlockchainSyncState", "sync", blocks_to_fetch=btf)
+    st = S.State()
+    st.pc.extend([peers[0].bv != peers[1].bv] + [z3.Not(value_eq(ex, oh, h)) for oh in others] +
+                 [L.enum_in_range(e.fields[ctx.field_index("BlockData", "status")], 4) for q in queues for e in q.items])
+    outs = ex.run(body, [S.Ref(S.Cell(state), (), True), h], st)
+    v.paths += len(outs)
+    n = 0
+    for o in outs:
+        if o.kind in ("unsupported", "unwound", "path-limit"):
+            return v.undecided("%s %s" % (o.kind, o.info))
+        if o.kind == "panic":
+            L.report_panic(v, ex, o, "remove_entry panics: %s" % o.info)
+            continue
+        if o.kind not in ("stopped", "return") or not ex.feasible(o.pc):
+            continue
+        post = ex.deref_value(o.state.frames[0].locals["_1"].v)
+        pmap = post.fields[ctx.field_index("BlockchainSyncState", "blocks_to_fetch")]
+        bad = False
+        for p in range(2):
+            cell = pmap.entries[p][2]
+            dq = cell.v if isinstance(cell, S.Cell) else cell
+            if not isinstance(dq, S.Seq):
+                return v.undecided("queue of peer #%d is no longer a tracked sequence" % p)
+            v.queries += 1
+            hit_left = [value_eq(ex, e.fields[ctx.field_index("BlockData", "block_hash")], h) for e in dq.items]
+            if hit_left and ex.feasible(o.pc, z3.Or(*hit_left)):
+                L.fail_structural(v, o, "after remove_entry the queue of peer #%d still holds an entry for the removed block (it stays in flight for ever there, or is requested again)" % p)
+                bad = True
+            other_left = [value_eq(ex, e.fields[ctx.field_index("BlockData", "block_hash")], others[p]) for e in dq.items]
+            if not other_left or ex.feasible(o.pc, z3.Not(z3.Or(*other_left))):
+                L.fail_structural(v, o, "remove_entry dropped an entry for a different block from the queue of peer #%d" % p)
+                bad = True
+        n += 0 if bad else 1
+    v.covers_total += 1
+    v.covers_sat += 1 if n else 0
